@@ -42,7 +42,7 @@ def run(ctx):
                 if '"ev":"c13.' in line:
                     o.write(line)
                     n += 1
-        ctx.validate("FramingTrace", out, keyfn, describe=describe, timeout=3000, require_events=6 if "huge" in f else 10)
+        ctx.validate("FramingTrace", out, keyfn, describe=describe, timeout=3000, require_events=6 if ("huge" in f or "slow" in f) else 10)
     ctx.extra["connections"] = n // 2
     ctx.assumptions += [
         "the kernel may coalesce segments written 2 ms apart: this costs coverage, never soundness (the property is for all segmentations)",
